@@ -45,6 +45,9 @@ def make_series(r, trial):
     intraday = trial % 3 == 0
     if intraday:
         dates = pd.DatetimeIndex(sorted(pd.Timestamp("2020-01-01") + pd.to_timedelta(np.sort(r.choice(24 * 60 * L, size=L * 2, replace=False)), unit="m")))
+        if trial % 6 == 3:
+            # a timezone-aware intraday index (fixed offset, no DST): the calendar day of an observation is its local day
+            dates = dates.tz_localize(["Etc/GMT-10", "Etc/GMT+9"][(trial // 6) % 2])
     else:
         dates = pd.bdate_range("2020-01-01", periods=L)
     inc = r.normal(0, .02, len(dates))
